@@ -6,6 +6,7 @@ import (
 	"bytes"
 	"encoding/binary"
 	"encoding/json"
+	"fmt"
 	"sync"
 	"testing"
 
@@ -55,7 +56,7 @@ type vfFecStream struct {
 }
 
 type vfFecScript struct {
-	Level   string        `json:"level"` // enc | icpt | conc | wire
+	Level   string        `json:"level"` // enc | icpt | conc | wire | enc20 | icpt20 (RFC 8627 encoder, growth of C14)
 	Poison  bool          `json:"poison"`
 	K       uint32        `json:"k"` // icpt/conc: NumMediaPackets
 	N       uint32        `json:"n"` // icpt/conc: NumFECPackets
@@ -201,6 +202,10 @@ func TestVerifFlexFecExec(t *testing.T) {
 			vfFecRunWire(t, &sc, out)
 		case "enc":
 			vfFecRunEnc(t, &sc, out)
+		case "enc20":
+			vfFecRunEnc20(t, &sc, out)
+		case "icpt20":
+			vfFecRunIcpt20(t, &sc, out)
 		case "icpt":
 			vfFecRunIcpt(t, &sc, out, false)
 		case "conc":
@@ -336,5 +341,124 @@ func vfFecRunIcpt(t *testing.T, sc *vfFecScript, out *vfWriter, concurrent bool)
 	}
 	if err := icpt.Close(); err != nil {
 		t.Fatalf("VERIF-INFRA close: %v", err)
+	}
+}
+
+// ---- growth of C14: the RFC 8627 encoder (FlexEncoder20), see spec/Trace_FlexFec20.tla --------------------------------
+
+// vfFec20Factory plugs FlexEncoder20 into the interceptor through the FECEncoderFactory option.
+type vfFec20Factory struct{}
+
+func (vfFec20Factory) NewEncoder(payloadType uint8, ssrc uint32) FlexEncoder {
+	return NewFlexEncoder(payloadType, ssrc)
+}
+
+// vfFecGuard runs fn and returns the text of a panic it raised ("" if none): FlexEncoder20 is documented as work in
+// progress and a crash of it is recorded as an observation, it must not take the harness down.
+func vfFecGuard(fn func()) (msg string) {
+	defer func() {
+		if r := recover(); r != nil {
+			msg = fmt.Sprint(r)
+			if msg == "" {
+				msg = "panic"
+			}
+		}
+	}()
+	fn()
+
+	return ""
+}
+
+// level "enc20": FlexEncoder20.EncodeFec directly; one encoder per stream, successive batches.
+func vfFecRunEnc20(t *testing.T, sc *vfFecScript, out *vfWriter) {
+	t.Helper()
+	for i := range sc.Streams {
+		st := &sc.Streams[i]
+		enc := NewFlexEncoder(st.FecPT, vfBE32(st.FecSSRC))
+		for _, b := range st.Batches {
+			media := make([]rtp.Packet, 0, len(b.Pkts))
+			recs := make([]vfM, 0, len(b.Pkts))
+			for j := range b.Pkts {
+				hdr, payload := vfFecBuild(t, vfBE32(st.SSRC), &b.Pkts[j])
+				media = append(media, rtp.Packet{Header: *hdr, Payload: payload})
+				recs = append(recs, vfFecRec(hdr, payload))
+			}
+			before := vfFecSnapshot(t, media)
+			var repairs []rtp.Packet
+			msg := vfFecGuard(func() { repairs = enc.EncodeFec(media, b.N) })
+			after := vfFecSnapshot(t, media)
+			intact := len(before) == len(after)
+			for j := range before {
+				intact = intact && bytes.Equal(before[j], after[j])
+			}
+			outs := make([]vfM, 0, len(repairs))
+			if msg == "" {
+				for j := range repairs {
+					outs = append(outs, vfFecRec(&repairs[j].Header, repairs[j].Payload))
+				}
+			}
+			out.Emit(vfM{
+				"a": "batch", "kind": "enc", "s": st.S, "ssrc": st.SSRC, "fecssrc": st.FecSSRC, "fecpt": int(st.FecPT),
+				"n": int(b.N), "full": true, "media": recs, "out": outs, "intact": intact, "panic": msg,
+			})
+			if msg != "" {
+				break // the encoder's state after a panic is undefined: abandon this stream
+			}
+		}
+	}
+}
+
+// level "icpt20": the FecInterceptor with FECEncoderFactory(FlexEncoder20), sequentially, one stream after the other.
+func vfFecRunIcpt20(t *testing.T, sc *vfFecScript, out *vfWriter) {
+	t.Helper()
+	factory, err := NewFecInterceptor(NumMediaPackets(sc.K), NumFECPackets(sc.N), FECEncoderFactory(vfFec20Factory{}))
+	if err != nil {
+		t.Fatalf("VERIF-INFRA factory: %v", err)
+	}
+	icpt, err := factory.NewInterceptor("")
+	if err != nil {
+		t.Fatalf("VERIF-INFRA NewInterceptor: %v", err)
+	}
+	for i := range sc.Streams {
+		st := &sc.Streams[i]
+		var down []vfM
+		info := &interceptor.StreamInfo{
+			SSRC: vfBE32(st.SSRC), SSRCForwardErrorCorrection: vfBE32(st.FecSSRC), PayloadTypeForwardErrorCorrection: st.FecPT,
+		}
+		writer := icpt.BindLocalStream(info, interceptor.RTPWriterFunc(
+			func(hdr *rtp.Header, payload []byte, _ interceptor.Attributes) (int, error) {
+				down = append(down, vfFecRec(hdr, payload))
+
+				return len(payload), nil
+			}))
+		for _, b := range st.Batches {
+			recs := make([]vfM, 0, len(b.Pkts))
+			down = nil
+			msg := ""
+			for j := range b.Pkts {
+				hdr, payload := vfFecBuild(t, vfBE32(st.SSRC), &b.Pkts[j])
+				recs = append(recs, vfFecRec(hdr, payload))
+				msg = vfFecGuard(func() {
+					if _, werr := writer.Write(hdr, payload, interceptor.Attributes{}); werr != nil {
+						t.Fatalf("VERIF-INFRA downstream write failed: %v", werr)
+					}
+				})
+				if msg != "" {
+					break
+				}
+			}
+			got := down
+			if got == nil || msg != "" {
+				got = []vfM{}
+			}
+			out.Emit(vfM{
+				"a": "batch", "kind": "icpt", "s": st.S, "ssrc": st.SSRC, "fecssrc": st.FecSSRC, "fecpt": int(st.FecPT),
+				"n": int(sc.N), "full": uint32(len(b.Pkts)) == sc.K, "media": recs, "out": got, "intact": true, //nolint:gosec
+				"panic": msg,
+			})
+			if msg != "" {
+				break // the stream's mutex is still held by the panicked Write: any further write would block for ever
+			}
+		}
 	}
 }
